@@ -471,9 +471,9 @@ def c01_programs(tier, sd):
     out = atomic_programs(tier, rnd) + statement_programs(tier, rnd) + structure_programs(tier, rnd) + constfold_programs(tier, rnd) + \
         rangelist_history_programs(tier, rnd)
     if tier == "thorough":
-        out += random_programs(rnd, 12000)
+        out += random_programs(rnd, 12000) + random_struct_programs(rnd, 4000)
     else:
-        out += random_programs(rnd, 150)
+        out += random_programs(rnd, 150) + random_struct_programs(rnd, 60)
     return out
 
 
@@ -552,6 +552,81 @@ def random_programs(rnd, n):
             if not f[3]:
                 nonr[f[0]] = rnd.choice(boundary_values(f[2], f[1] == "s"))
         out.append(spec_single("random", "seeded random program #%d" % i, fields, stmts, [nonr]))
+    return out
+
+
+def random_struct_programs(rnd, n):
+    """seeded random *structured* programs over unsigned 8-bit fields and fixed-size lists: foreach bodies mixing element,
+    index, neighbour, part-select, other lists' reductions, index-dependent ranges, nested conditions; unique; reductions used
+    several times; list operations between calls.  Every piece is inside F by construction (unsigned, equal widths; signed
+    operands only where they are the widest)."""
+    out = []
+    a, b, nn, w = F("a"), F("b"), F("n"), F("w")
+    IT, IX = ["it", "i"], ["idx", "i"]
+    LI = F("l", ["idx", "i"])
+    SM, SL = ["sum", ["m"]], ["sum", ["l"]]
+    ops_c = ["<", "<=", ">", ">=", "==", "!="]
+
+    def atom():
+        k = rnd.random()
+        op = rnd.choice(ops_c)
+        if k < 0.15:
+            return E([op, IT, lit(rnd.choice([0, 1, 5, 50, 128, 200, 255]))])
+        if k < 0.27:
+            return E([op, IT, rnd.choice([a, b, nn])])
+        if k < 0.37:
+            return E([op, IT, ["+", IX, lit(rnd.randint(0, 100))]])
+        if k < 0.47:
+            return E([op, IT, rnd.choice([SM, ["sum", ["m"]], ["product", ["m"]]])])
+        if k < 0.57:
+            hi = rnd.choice([7, 5, 3])
+            lo = rnd.randint(0, hi)
+            return E([rnd.choice(["==", "!=", "<"]), ["ps", LI, hi, lo], ["ulit", rnd.randrange(1 << (hi - lo + 1)), hi - lo + 1]])
+        if k < 0.67:
+            m1 = rnd.randint(1, 20)
+            return E([rnd.choice(["in", "notin"]), IT, [["rng", ["*", IX, lit(m1)], ["+", ["*", IX, lit(m1)], lit(rnd.randint(0, 30))]], lit(rnd.randint(0, 255))]])
+        if k < 0.77:
+            return E([op, ["+", IT, rnd.choice([a, lit(1), nn])], rnd.choice([b, lit(100), w])])
+        if k < 0.87:
+            return E([op, ["ps", a, 7, 4], ["ps", LI, 3, 0]])
+        return E([op, IT, F("m", rnd.randint(0, 1))])
+
+    def body(depth=0):
+        out_b = []
+        for _ in range(rnd.randint(1, 2)):
+            k = rnd.random()
+            if k < 0.55 or depth > 0:
+                out_b.append(atom())
+            elif k < 0.7:
+                out_b.append(["if", [[[">", IX, lit(0)], [E([rnd.choice(ops_c), IT, F("l", ["idx", "i", -1])])]]], None])
+            elif k < 0.85:
+                cond = rnd.choice([["==", IX, lit(rnd.randint(0, 2))], ["<", a, lit(rnd.randint(1, 255))], ["==", nn, lit(rnd.randint(0, 3))], ["!=", ["ps", nn, 1, 0], ["ulit", 1, 2]]])
+                out_b.append(["if", [[cond, body(1)]], body(1) if rnd.random() < 0.5 else None])
+            else:
+                out_b.append(["implies", [rnd.choice(ops_c), IT, lit(rnd.randint(0, 255))], body(1)])
+        return out_b
+    for i in range(n):
+        nl = rnd.randint(2, 4)
+        fields = [["l", "list", ["u", 8], nl, True, False], ["m", "list", ["u", 8], 2, True, False], fld("a", ("u", 8)), fld("b", ("u", 8)),
+                  fld("w", ("u", 16)), fld("n", ("u", 8), False)]
+        st = []
+        for _ in range(rnd.randint(1, 3)):
+            k = rnd.random()
+            if k < 0.5:
+                st.append(["foreach", ["l"], "i", body()])
+            elif k < 0.6:
+                st.append(["unique", [["list", ["l"]]]] if rnd.random() < 0.5 else ["unique", [a, b, F("l", 0)]])
+            elif k < 0.75:
+                st.append(E([rnd.choice(ops_c), rnd.choice([SL, SM]), rnd.choice([lit(rnd.randint(0, 600)), w, a])]))
+            elif k < 0.85:
+                st.append(E([rnd.choice(ops_c), rnd.choice([a, b]), rnd.choice([SM, F("l", rnd.randint(0, nl - 1)), ["size", ["l"]]])]))
+            else:
+                st.append(["if", [[["<", nn, lit(2)], [E([rnd.choice(ops_c), a, F("m", 0)])]]], [E(["<", F("l", 0), b])]])
+        ops = [["set", ["top", "n"], rnd.choice([0, 1, 2, 3, 200])], ["randomize", ["top"]], ["set", ["top", "n"], rnd.choice([0, 1, 5])], ["randomize", ["top"]]]
+        if rnd.random() < 0.5:
+            ops += [["list_append", ["top", "l"], rnd.randint(0, 255)], ["randomize", ["top"]]]
+        ops.append(["randomize_with", ["top"], [E([rnd.choice(ops_c), a, rnd.choice([lit(100), SM, F("l", 0)])])]])
+        out.append({"tag": "random_struct", "desc": "seeded random structured program #%d" % i, "prog": one_class(fields, st), "world": [["top", "obj", "Top"]], "ops": ops})
     return out
 
 
